@@ -211,6 +211,7 @@ def setup_clauses(task):
 TIME_MOVERS = {"shift", "tshift", "reindex", "reindex_like", "ffill", "bfill", "pad", "backfill", "fillna", "interpolate", "resample", "asfreq", "align", "rolling", "expanding", "ewm",
                "diff", "pct_change", "cumsum", "cumprod", "cummax", "cummin", "combine_first", "merge", "merge_asof", "join", "update", "where", "mask", "replace", "sort_index", "sort_values",
                "truncate", "last", "first", "tail", "head", "searchsorted", "asof", "set_index", "reset_index", "iloc", "loc", "at", "iat", "mean", "sum", "max", "min"}
+DATE_AXIS_REDUCERS = {"any", "all", "count", "nunique", "notna", "isna", "isnull", "notnull", "dropna", "idxmax", "idxmin", "first_valid_index", "last_valid_index", "std", "var", "median", "describe", "prod"}
 INSTALLER_OK = {"DataFrame", "Series", "concat", "copy", "equals", "DateOffset", "any", "duplicated", "tolist", "setup", "adjust", "_process_data", "set_commissions", "use_integer_positions", "_set_root", "pop", "get", "items", "keys", "values", "append", "format"}
 INSTALLERS = ("bt.core.StrategyBase.setup", "bt.core.SecurityBase.setup", "bt.core.CouponPayingSecurity.setup", "bt.backtest.Backtest._process_data", "bt.backtest.Backtest.__init__")
 
@@ -233,17 +234,29 @@ def installer_scan(task):
     for q in INSTALLERS:
         fn = prog.func(q).node
         movers, unknown = [], []
+        def on_labels(x):
+            """is the receiver chain rooted in the labels of a frame (.columns / .index) rather than in its values?"""
+            while isinstance(x, (ast.Attribute, ast.Call, ast.Subscript)):
+                if isinstance(x, ast.Attribute) and x.attr in ("columns", "index"):
+                    return True
+                x = x.func if isinstance(x, ast.Call) else x.value
+            return False
+
         for n in ast.walk(fn):
             if isinstance(n, ast.Attribute) and n.attr in TIME_MOVERS:
                 movers.append("%s at line %d" % (ast.unparse(n)[:70], n.lineno))
-            elif isinstance(n, ast.Call) and isinstance(n.func, ast.Attribute) and n.func.attr not in INSTALLER_OK and n.func.attr not in TIME_MOVERS:
+            elif isinstance(n, ast.Call) and isinstance(n.func, ast.Attribute) and n.func.attr in DATE_AXIS_REDUCERS and not on_labels(n.func.value):
+                # a reduction over a frame's values runs along the date axis: whatever it decides at setup depends on every date, later ones included
+                movers.append("%s at line %d (reduces over all dates)" % (ast.unparse(n.func)[:70], n.lineno))
+            elif isinstance(n, ast.Call) and isinstance(n.func, ast.Attribute) and n.func.attr not in INSTALLER_OK and n.func.attr not in TIME_MOVERS and n.func.attr not in DATE_AXIS_REDUCERS:
                 unknown.append("%s at line %d" % (ast.unparse(n.func)[:70], n.lineno))
         name = q.split(".", 2)[-1]
         verdict = "refuted" if movers else ("unknown" if unknown else "proved")
         res.append(dict(id="%s/installs-input-frames-date-for-date" % name, kind="read", props=["C04"], verdict=verdict, backend="ast-scan", secs=0.0, func=q,
                         model=dict(sites=movers) if movers else None, reason=("unclassified method(s): %s" % unknown) if (unknown and not movers) else None))
     # guards: a bid/offer or coupon frame on a different index is refused (raise), never aligned
-    for q, fr in (("bt.core.SecurityBase.setup", "bidoffers"), ("bt.core.CouponPayingSecurity.setup", "coupons")):
+    for q, fr in (("bt.core.SecurityBase.setup", "bidoffers"), ("bt.core.CouponPayingSecurity.setup", "coupons"),
+                  ("bt.core.CouponPayingSecurity.setup", "cost_long"), ("bt.core.CouponPayingSecurity.setup", "cost_short")):    # the cost tables: after fix F20
         fn = prog.func(q).node
         name = q.split(".", 2)[-1]
         ok = False
@@ -251,6 +264,11 @@ def installer_scan(task):
         field = "self._%s" % fr
         # locals that hold the frame under test: assigned into self._<frame> (or it is that attribute itself); no spelling of a local is assumed
         holders = {field} | {ast.unparse(a.value) for a in ast.walk(fn) if isinstance(a, ast.Assign) and isinstance(a.value, ast.Name) and any(ast.unparse(t) == field for t in a.targets)}
+        # ... or a loop variable running over a literal tuple / list that contains the attribute
+        holders |= {a.target.id for a in ast.walk(fn) if isinstance(a, ast.For) and isinstance(a.target, ast.Name) and isinstance(a.iter, (ast.Tuple, ast.List)) and any(ast.unparse(e) == field for e in a.iter.elts)}
+
+        def is_present_test(t):
+            return isinstance(t, ast.Compare) and len(t.ops) == 1 and isinstance(t.ops[0], ast.IsNot) and isinstance(t.comparators[0], ast.Constant) and t.comparators[0].value is None and ast.unparse(t.left) in holders
         for n in ast.walk(fn):
             if isinstance(n, ast.If):
                 def is_guard(t):
@@ -266,7 +284,12 @@ def installer_scan(task):
                         return {"pos": "neg", "neg": "pos"}.get(p)
                     if isinstance(t, ast.BoolOp):
                         want = "neg" if isinstance(t.op, ast.Or) else "pos"    # one true disjunct decides an `or`, one false conjunct an `and`
-                        return want if any(polarity(v) == want for v in t.values) else None
+                        if any(polarity(v) == want for v in t.values):
+                            return want
+                        # `table is not None and not table.index.equals(...)`: a PRESENT table on another index makes the test true
+                        if isinstance(t.op, ast.And) and any(polarity(v) == "neg" for v in t.values) and all(polarity(v) == "neg" or is_present_test(v) for v in t.values):
+                            return "neg"
+                        return None
                     return None
 
                 pol = polarity(n.test)
@@ -277,4 +300,31 @@ def installer_scan(task):
                         ok = True
         res.append(dict(id="%s/%s-on-a-different-index-is-refused" % (name, fr), kind="read", props=["C04", "C10"], verdict="proved" if ok else "refuted", backend="ast-scan", secs=0.0, func=q,
                         model=None if ok else dict(reason="no 'index.equals(universe.index)' guard that raises on mismatch")))
+    # the synthetic pre-start row glued in front of a frame is built from THAT frame's own columns and first date (a row with other columns would add
+    # all-NaN columns for tickers the frame does not cover, which then count as "quoted": NaN spreads / costs instead of none)
+    fn = prog.func("bt.backtest.Backtest._process_data").node
+    once = {}
+    for n in ast.walk(fn):
+        if isinstance(n, ast.Assign) and len(n.targets) == 1 and isinstance(n.targets[0], ast.Name):
+            once.setdefault(n.targets[0].id, []).append(n.value)
+    glued, wrong = 0, []
+    for n in ast.walk(fn):
+        if isinstance(n, ast.Call) and isinstance(n.func, ast.Attribute) and n.func.attr == "concat" and n.args and isinstance(n.args[0], (ast.List, ast.Tuple)) and len(n.args[0].elts) == 2:
+            row, frame = n.args[0].elts
+            if isinstance(row, ast.Name) and len(once.get(row.id, [])) >= 1:
+                cands = once[row.id]
+                # the assignment that precedes this concat in the source
+                row = max([c for c in cands if c.lineno <= n.lineno], key=lambda c: c.lineno, default=cands[0])
+            if not (isinstance(frame, ast.Name) and isinstance(row, ast.Call) and isinstance(row.func, ast.Attribute) and row.func.attr in ("DataFrame", "Series")):
+                continue
+            glued += 1
+            kws = {k.arg: k.value for k in row.keywords}
+            cols, ind = kws.get("columns"), kws.get("index")
+            if cols is not None and ast.unparse(cols) != frame.id + ".columns":
+                wrong.append("row of columns %s in front of %s (line %d)" % (ast.unparse(cols), frame.id, n.lineno))
+            names_in_index = {x.id for x in ast.walk(ind) if isinstance(x, ast.Name)} if ind is not None else set()
+            if ind is not None and (frame.id not in names_in_index or (names_in_index - {frame.id, "pd", "np"})):
+                wrong.append("row dated from %s in front of %s (line %d)" % (ast.unparse(ind)[:60], frame.id, n.lineno))
+    res.append(dict(id="Backtest._process_data/pre-start-row-has-the-columns-and-first-date-of-the-frame-it-is-glued-to", kind="read", props=["C10", "C04", "C11"], verdict=("refuted" if wrong else ("proved" if glued else "unknown")),
+                    backend="ast-scan", secs=0.0, func="bt.backtest.Backtest._process_data", model=dict(sites=wrong) if wrong else None, reason=None if glued else "no pd.concat([row, frame]) found"))
     return dict(results=res, samples=[dict(installers=list(INSTALLERS))])
